@@ -54,7 +54,7 @@ REAL_STUB = {
     "real": ["jinja2 environment / template cache / loaders / runtime / compiled templates / filters", "asyncio (async environments, via SimLoop policy)"],
     "stub": ["thread scheduler (baton passing on sys.monitoring LINE/INSTRUCTION events)", "threading.Lock -> SimLock", "event loop scheduling for async environments (SimLoop)"],
 }
-BUDGET = {"quick": 28, "thorough": 600}
+BUDGET = {"quick": 45, "thorough": 600}
 CACHE_SIZES = (400, 0, 1, 2)
 SYNC_APIS = ["render", "generate", "stream", "module"]
 _setup_done = False
